@@ -506,3 +506,31 @@ impl<VM: VMBinding> LargeObjectSpace<VM> {
         self.in_nursery_gc = nursery;
     }
 }
+
+#[cfg(feature = "mmtk_verif")]
+impl<VM: VMBinding> LargeObjectSpace<VM> {
+    /// Verification accessor (add-only): the treadmill of this space.
+    pub fn verif_treadmill(&self) -> &TreadMill {
+        &self.treadmill
+    }
+    /// Verification accessor (add-only): the current mark state.
+    pub fn verif_mark_state(&self) -> u8 {
+        self.mark_state
+    }
+    /// Verification accessor (add-only): is the current / last GC a nursery GC?
+    pub fn verif_in_nursery_gc(&self) -> bool {
+        self.in_nursery_gc
+    }
+    /// Verification accessor (add-only): the raw mark/nursery bits of an object.
+    pub fn verif_mark_nursery_bits(&self, object: ObjectReference) -> u8 {
+        VM::VMObjectModel::LOCAL_LOS_MARK_NURSERY_SPEC.load_atomic::<VM, u8>(
+            object,
+            None,
+            Ordering::SeqCst,
+        )
+    }
+    /// Verification hook: the private [`LargeObjectSpace::is_in_nursery`].
+    pub fn verif_is_in_nursery(&self, object: ObjectReference) -> bool {
+        self.is_in_nursery(object)
+    }
+}
